@@ -37,6 +37,7 @@ That one active call is one machine stack frame in an unoptimised build is the a
 by the differential tie (child processes on a 2 MiB stack), not a theorem.
 -/
 import SophiaModel.Model.Depth
+import SophiaModel.Model.DepthGraph
 
 namespace SophiaProofs.C16
 open SophiaModel SophiaModel.Depth SophiaModel.Gen.RecursionSites
@@ -233,6 +234,18 @@ theorem graph_rec_depth_exact {G E S : Type} (sel : G → Except E (List S)) (gs
     have := ih (fun x hx => hok x (by simp [hx]))
     simp [graphRec, hr, this]
 
+/-- without any hypothesis on `sel` (an evaluation may fail anywhere): never more than one call per
+graph name plus one -/
+theorem graph_rec_depth_le {G E S : Type} (sel : G → Except E (List S)) (gs : List G) :
+    (graphRec sel gs).2 ≤ gs.length + 1 := by
+  induction gs with
+  | nil => simp [graphRec]
+  | cons g gs ih =>
+    simp only [graphRec, List.length_cons]
+    cases hg : sel g with
+    | error e => simp
+    | ok r => simp only []; omega
+
 /-- REFUTATION: `n` named graphs need more than `n` nested calls -/
 theorem graph_rec_depth_linear (n : Nat) :
     (graphRec (fun g => (.ok [g] : Except Unit (List Nat))) (List.range n)).2 ≥ n := by
@@ -276,6 +289,23 @@ theorem populate_rec_depth_exact {I E J : Type} (conv : I → Except E J) (acc :
     | cons c' cs =>
       have := ih (acc ++ [j]) (fun x hx => hok x (by simp [hx]))
       simp [populateListRec, hj, this]
+
+/-- without any hypothesis on `conv` -/
+theorem populate_rec_depth_le {I E J : Type} (conv : I → Except E J) (acc : List J) (cells : List I) :
+    (populateListRec conv acc cells).2 ≤ max 1 cells.length := by
+  induction cells generalizing acc with
+  | nil => simp [populateListRec]
+  | cons c cs ih =>
+    cases cs with
+    | nil => simp only [populateListRec]; cases conv c <;> simp
+    | cons c' cs =>
+      simp only [populateListRec]
+      cases hc : conv c with
+      | error e => simp
+      | ok j =>
+        have := ih (acc ++ [j])
+        simp only [List.length_cons] at this ⊢
+        omega
 
 /-- REFUTATION: a list of `n` items needs `n` nested calls -/
 theorem populate_rec_depth_linear (n : Nat) :
@@ -800,6 +830,66 @@ theorem pretty_repaired_props_bounded (c : Nat) (a : PArcs) : wProps (a.cut c 0)
   have h4 := anonNest_cuta a c 0
   omega
 
+mutual
+theorem anons_nestData : ∀ (t : PT) (a : PArcs), a ∈ t.anons → a.nestData ≤ t.nestData
+  | .atom, a, h => by simp [PT.anons] at h
+  | .quoted s p o, a, h => by
+    simp only [PT.anons, List.mem_append] at h
+    simp only [PT.nestData]
+    rcases h with h | h | h
+    · have := anons_nestData s a h; omega
+    · have := anons_nestData p a h; omega
+    · have := anons_nestData o a h; omega
+  | .coll items, a, h => by
+    have := anons_nestDatas items a (by simpa [PT.anons] using h)
+    simp only [PT.nestData]; omega
+  | .anon arcs, a, h => by
+    simp only [PT.anons, List.mem_cons] at h
+    simp only [PT.nestData]
+    rcases h with rfl | h
+    · omega
+    · exact anons_nestDataa arcs a h
+theorem anons_nestDatas : ∀ (ts : PTs) (a : PArcs), a ∈ ts.anons → a.nestData ≤ ts.nestData
+  | .nil, a, h => by simp [PTs.anons] at h
+  | .cons t ts, a, h => by
+    simp only [PTs.anons, List.mem_append] at h
+    simp only [PTs.nestData]
+    rcases h with h | h
+    · have := anons_nestData t a h; omega
+    · have := anons_nestDatas ts a h; omega
+theorem anons_nestDataa : ∀ (x : PArcs) (a : PArcs), a ∈ x.anons → a.nestData ≤ x.nestData
+  | .nil, a, h => by simp [PArcs.anons] at h
+  | .cons p o v ann rest, a, h => by
+    simp only [PArcs.anons, List.mem_append] at h
+    have hp := anons_nestData p a; have ho := anons_nestData o a
+    have ha := anons_nestDataa ann a; have hr := anons_nestDataa rest a
+    cases ann with
+    | nil =>
+      simp only [PArcs.nestData]
+      rcases h with h | h | h | h
+      · have := hp h; omega
+      · have := ho h; omega
+      · simp [PArcs.anons] at h
+      · have := hr h; omega
+    | cons p' o' v' ann' rest' =>
+      simp only [PArcs.nestData] at ha ⊢
+      rcases h with h | h | h | h
+      · have := hp h; omega
+      · have := ho h; omega
+      · have := ha h; omega
+      · have := hr h; omega
+end
+
+/-- THE REPAIRED PRETTIFIER, whole document: whichever blank nodes of a tree end up deferred, the tree
+of each of them (`write_properties` at nesting 0 again) stays within the bound given by the data
+nesting of the ORIGINAL tree and the cap -/
+theorem pretty_repaired_deferred_bounded (c : Nat) (t : PT) :
+    ∀ a ∈ t.anons, wProps (a.cut c 0) ≤ 5 + 6 * (t.nestData + c) := by
+  intro a ha
+  have h1 := pretty_repaired_props_bounded c a
+  have h2 := anons_nestData t a ha
+  omega
+
 /-- the property's clause holds of the repaired text: bounded by a function of the nesting of the data -/
 theorem pretty_repaired_full (c : Nat) : ∃ a k : Nat, ∀ t : PT, wTerm (t.cut c 0) ≤ a + k * t.nestData :=
   ⟨1 + 6 * c, 6, fun t => by have := pretty_repaired_depth_bounded c t; omega⟩
@@ -816,6 +906,82 @@ theorem cut_chain (c : Nat) (n lvl : Nat) : (chainPT n).cut c lvl = chainPT (min
     · have e : min (n + 1) (c - lvl) = min n (c - (lvl + 1)) + 1 := by omega
       rw [e]
       simp [chainPT, PT.cut, PArcs.cut, h, ih]
+
+/-! ## the generated call graph: no recursion over data, decided on the table -/
+
+theorem rankOf_le_maxRank (r : List Nat) (i : Nat) : rankOf r i ≤ maxRank r := by
+  unfold rankOf maxRank
+  have key : ∀ (l : List Nat) (d : Nat), d ≤ l.foldl max d ∧ ∀ x ∈ l, x ≤ l.foldl max d := by
+    intro l
+    induction l with
+    | nil => intro d; simp
+    | cons a l ih =>
+      intro d
+      simp only [List.foldl]
+      have h1 := (ih (max d a)).1
+      have h2 := (ih (max d a)).2
+      refine ⟨by omega, fun x hx => ?_⟩
+      rcases List.mem_cons.mp hx with rfl | hx
+      · omega
+      · exact h2 x hx
+  by_cases h : i < r.length
+  · have : r.getD i 0 = r[i] := by simp [List.getD, h]
+    rw [this]
+    exact (key r 0).2 _ (List.getElem_mem h)
+  · have : r.getD i 0 = 0 := by
+      have hi : r.length ≤ i := by omega
+      simp [List.getD, List.getElem?_eq_none hi]
+    omega
+
+/-- THE CALL-GRAPH THEOREM, for every graph and every rank: if the rank strictly decreases along
+every non-descending edge, a chain of nested calls that starts with nesting measure `nest` has at
+most `nest * (maxRank + 1) + rank(start)` calls — whatever the amount of data any of the functions
+loops over -/
+theorem chain_depth_bounded (es : List CallEdge) (r : List Nat) (h : wellRanked es r = true)
+    {cur nest : Nat} {p : List CallEdge} (hc : Chain es cur nest p) :
+    p.length ≤ nest * (maxRank r + 1) + rankOf r cur := by
+  induction hc with
+  | nil cur nest => simp
+  | step e nest nest' rest he hn _ ih =>
+    have hcal := rankOf_le_maxRank r e.2.1
+    have hw := List.all_eq_true.mp h e he
+    simp only [List.length_cons]
+    by_cases hd : e.2.2 = true
+    · simp only [hd, if_true] at hn
+      have hm : (nest' + 1) * (maxRank r + 1) ≤ nest * (maxRank r + 1) := Nat.mul_le_mul_right _ hn
+      rw [Nat.add_mul] at hm
+      omega
+    · have hd' : e.2.2 = false := by simpa using hd
+      simp only [hd', Bool.false_eq_true, if_false] at hn
+      simp only [hd', Bool.false_or, decide_eq_true_eq] at hw
+      have hm : nest' * (maxRank r + 1) ≤ nest * (maxRank r + 1) := Nat.mul_le_mul_right _ hn
+      omega
+
+/-- OBLIGATION on the graph regenerated from /repo on every run: the non-descending calls of the
+anchored files have no cycle — there is no recursion over rows, characters, graph names, list
+cells or statements (a `return self.next()`, a `quoted_string(w, rest)`, … fails this) -/
+theorem call_graph_well_ranked : wellRanked callEdges rankHint = true := by decide
+
+theorem call_graph_ids : rankHint.length = functions.length ∧
+    callEdges.all (fun e => decide (e.1 < functions.length) && decide (e.2.1 < functions.length)) = true := by
+  decide
+
+/-- for today's /repo: every chain of nested calls among the functions of the anchored files is
+bounded by the nesting of its argument alone -/
+theorem call_graph_chain_bounded {cur nest : Nat} {p : List CallEdge} (hc : Chain callEdges cur nest p) :
+    p.length ≤ nest * (maxRank rankHint + 1) + maxRank rankHint := by
+  have := chain_depth_bounded callEdges rankHint call_graph_well_ranked hc
+  have := rankOf_le_maxRank rankHint cur
+  omega
+
+/-- the hypothesis is necessary: one non-descending self call (the shape of every fixed C16 defect)
+admits chains of every length at nesting 0 -/
+theorem chain_unbounded_without_rank (n : Nat) : ∃ p, p.length = n ∧ Chain [(0, 0, false)] 0 0 p := by
+  induction n with
+  | zero => exact ⟨[], rfl, .nil 0 0⟩
+  | succ n ih =>
+    obtain ⟨p, hp, hc⟩ := ih
+    exact ⟨(0, 0, false) :: p, by simp [hp], .step (0, 0, false) 0 0 p (by simp) (by simp) hc⟩
 
 /-! ## the generated table -/
 
@@ -1027,7 +1193,16 @@ example : selectD 3 (.filter (.node (.cons famExpr (.cons (.exists (.graphVar .b
     checkD 7 famExpr = 2 ∧ famExpr.height = 1 := by decide
 example : wTerm (chainPT 3) = 16 ∧ (chainPT 3).nestData = 0 ∧ (chainPT 3).nestAll = 3 := by decide
 example : wTree .atom (famArcs 4) = 7 := by decide
+example : (chainPT 3).anons.length = 3 := by decide
 example : wTerm ((chainPT 9).cut 2 0) = 11 ∧ ((chainPT 9).cut 2 0).anonNest = 2 := by decide
 example : (dedupRec (some 1) [1, 1, 1, 2]).depth = 4 ∧ (dedupLoop (some 1) [1, 1, 1, 2]).item = some 2 := by decide
+
+-- the generated graph has recursions (descending self calls), and chains through them exist
+example : callEdges.any (fun e => e.2.2 && e.1 == e.2.1) = true := by decide
+example : Chain [(3, 3, true), (3, 4, false)] 3 2 [(3, 3, true), (3, 3, true), (3, 4, false)] :=
+  .step (3, 3, true) 2 1 _ (by simp) (by simp) (.step (3, 3, true) 1 0 _ (by simp) (by simp)
+    (.step (3, 4, false) 0 0 _ (by simp) (by simp) (.nil 4 0)))
+example : wellRanked [(3, 3, true), (3, 4, false)] [0, 0, 0, 1, 0] = true ∧
+    wellRanked [(0, 0, false)] [5] = false := by decide
 
 end SophiaProofs.C16
